@@ -305,6 +305,13 @@ func (p *Prog) wakesAfter(st *ssa.Store, fa *ssa.FieldAddr) (bool, string) {
 				wake[in] = true
 				return
 			}
+			// a channel field of the very same object value
+			if u, ok := a.(*ssa.UnOp); ok && u.Op == token.MUL {
+				if fa2, ok := u.X.(*ssa.FieldAddr); ok && fa2.X == fa.X {
+					wake[in] = true
+					return
+				}
+			}
 			d := Desc(a)
 			// a channel of the same object, or of the object that owns this one
 			if strings.HasPrefix(d, base+".") {
